@@ -92,6 +92,11 @@ IntT parallel_range(
   if (num_threads == 0) {
     num_threads = std::thread::hardware_concurrency();
   }
+  if (num_threads < 1) {
+    // hardware_concurrency() returns 0 when the count is not computable; with
+    // no workers the progress loop below would never end
+    throw std::logic_error("thread count must be at least 1");
+  }
 
   std::atomic<IntT> current_value(start_value);
   std::atomic<IntT> result_value(end_value);
